@@ -1249,6 +1249,9 @@ class ASTBuilder:
                 mod = parseFile(path)
             except (SyntaxError, ValueError, RecursionError, MemoryError) as e:
                 ctx.report(f"cannot parse file, {e}")
+            except OSError as e:
+                # dangling symbolic link, directory named like a module, unreadable file...
+                ctx.report(f"cannot read file, {e}")
 
             self.ast_cache[path] = mod
             return mod
